@@ -13,6 +13,7 @@
 #include <cocls/callback_awaiter.h>
 
 #include <memory>
+#include <pthread.h>
 #include <sstream>
 
 #include "../engine/seqx/seqx.h"
@@ -27,14 +28,30 @@ using Co = cocls::with_allocator<Store, cocls::async<T>>;
 
 // measured region ------------------------------------------------------------------------------
 static uint64_t g_region_start, g_region_start512, g_queue_nodes_total;
+static void *g_region_qnode;
+// The thread's ready queue is a std::deque: appending allocates a 512-byte node once per 64 queued resumptions, wherever
+// its cursor happens to stand. That recycling belongs to the queue, not to the primitives under test - but only that:
+// before a region the (empty) queue's cursor is moved to the start of a node, so that the next 63 appended resumptions
+// cannot need a node, and a 512-byte allocation inside the region is charged like any other unless the queue's end has
+// really moved on to another node.
 static void region_begin() {
+    auto &q = cocls::coro_queue::queue_impl::instance._queue;
+    g_region_qnode = nullptr;
+    if (!cocls::coro_queue::is_active() && q.empty()) {
+        int guard = 0;
+        while (q._M_impl._M_start._M_cur != q._M_impl._M_start._M_first && guard++ < 200) {
+            q.push_back(std::coroutine_handle<>());
+            q.pop_front();
+        }
+        g_region_qnode = (void *)q._M_impl._M_finish._M_node;
+    }
     g_region_start = seqx::news();
     g_region_start512 = seqx::g_news_512;
 }
-// allocations in the region, not counting 512-byte std::deque nodes of the thread-local ready queue (one per 64 queued
-// resumptions, wherever the queue's cursor happens to stand): the ready queue is none of the primitives under test
 static uint64_t region_allocs() {
+    auto &q = cocls::coro_queue::queue_impl::instance._queue;
     uint64_t nodes = seqx::g_news_512 - g_region_start512;
+    if (g_region_qnode && (void *)q._M_impl._M_finish._M_node == g_region_qnode) nodes = 0;  // the queue's end never left its node
     g_queue_nodes_total += nodes;
     return seqx::news() - g_region_start - nodes;
 }
@@ -248,6 +265,12 @@ static Co<void> sp_waiter(Store &, cocls::future<int> &f, int *seen) {
     co_await f;
     ++*seen;
 }
+// disposal 4: the suspend point is awaited by a coroutine - one ready coroutine is resumed by symmetric transfer, the
+// others and the awaiting coroutine itself go through the thread's ready queue
+static Co<void> sp_resolver(Store &, cocls::promise<int> &p, int *resolved) {
+    bool ok = co_await p(1);
+    if (ok) ++*resolved;
+}
 static void sp_case(seqx::Runner &R, int nhandles, int how) {
     std::ostringstream d;
     d << "F3 suspend_point handles=" << nhandles << " disposal=" << how;
@@ -261,7 +284,12 @@ static void sp_case(seqx::Runner &R, int nhandles, int how) {
         cocls::future<int> f;
         cocls::promise<int> p = f.get_promise();
         for (int i = 0; i < nhandles; i++) sp_waiter(stores[i], f, &seen).detach();
-        cocls::suspend_point<bool> sp = p(1);  // carries all waiting coroutines
+        int resolved = 0;
+        if (how == 4) {
+            sp_resolver(stores[5], p, &resolved).detach();
+            if (resolved != 1) R.fail("noalloc/harness", "the coroutine awaiting the suspend point did not finish");
+        }
+        cocls::suspend_point<bool> sp = how == 4 ? cocls::suspend_point<bool>(true) : p(1);  // carries all waiting coroutines
         switch (how) {
             case 0: break;  // plain destruction
             case 1: {
@@ -299,6 +327,55 @@ static void gen_case(seqx::Runner &R, int style) {
     R.begin(d.str());
     auto g = counting(5);  // the generator frame is the user's allocation: outside the region
     int sum = 0;
+    if (style >= 3) {
+        // the same three styles on a thread that has never run a coroutine: a synchronous generator is stepped by plain
+        // resume() and does not need the thread's ready queue, which such a thread has not even constructed (its
+        // construction allocates). Everything is charged here, 512-byte blocks included.
+        struct Arg {
+            cocls::generator<int> *g;
+            int style, sum;
+            uint64_t n;
+        } arg{&g, style - 3, 0, 0};
+        pthread_t th;
+        auto body = +[](void *p) -> void * {
+            Arg &a = *static_cast<Arg *>(p);
+            uint64_t before = seqx::news();
+            switch (a.style) {
+                case 0:
+                    for (;;) {
+                        bool more = a.g->next();
+                        if (!more) break;
+                        a.sum += a.g->value();
+                    }
+                    break;
+                case 1:
+                    for (int &v : *a.g) a.sum += v;
+                    break;
+                case 2:
+                    for (int i = 0; i < 5; i++) {
+                        cocls::future<int> f = (*a.g)();
+                        a.sum += f.wait();
+                    }
+                    break;
+            }
+            a.n = seqx::news() - before;
+            return nullptr;
+        };
+        uint64_t n;
+        {
+            seqx::NoCount nc;  // the thread itself (stack, TLS block) is the harness's
+            pthread_create(&th, nullptr, body, &arg);
+            pthread_join(th, nullptr);
+            n = arg.n;
+        }
+        if (arg.sum != 15) R.fail("noalloc/harness", "generator sum %d", arg.sum);
+        if (n) R.fail("noalloc/generator-stepping-fresh-thread", "%lu dynamic allocations while stepping a synchronous generator on a thread that never ran a coroutine", (unsigned long)n);
+        R.step(5);
+        R.state(seqx::hash_str(d.str()));
+        R.outcome(n);
+        R.end(true);
+        return;
+    }
     region_begin();
     {
         switch (style) {
@@ -511,9 +588,7 @@ static void make_promise_storage_case(seqx::Runner &R, int outcome) {
 
 void seqx_run(seqx::Runner &R, const std::string &tier) {
     seq_warmup();
-    // the ready queue's first node and map exist now (see common_seq.h); make later node recycling impossible inside a
-    // region by counting it separately: allocations of exactly 512 bytes from std::deque are not produced by the
-    // primitives under test. They cannot occur here at all because no region queues 64 resumptions.
+    // the ready queue's first node and map exist now (see common_seq.h); node recycling: see region_begin()
     std::exception_ptr prebuilt = std::make_exception_ptr(TestError());
     for (int nco = 0; nco <= 3; nco++)
         for (int nh = 0; nh + nco <= 3; nh++)  // coroutine-type waiters travel in the suspend point: inline capacity three
@@ -536,9 +611,9 @@ void seqx_run(seqx::Runner &R, const std::string &tier) {
     for (int out = 0; out < 3; out++)
         for (size_t init : {(size_t)0, (size_t)32, (size_t)4000}) cbawait_stack_case(R, out, init);
     for (int n = 0; n <= 4; n++)
-        for (int how = 0; how < 4; how++)
+        for (int how = 0; how < 5; how++)
             sp_case(R, n, how);
-    for (int st = 0; st < 3; st++)
+    for (int st = 0; st < 6; st++)
         gen_case(R, st);
     bool q = tier == "quick";
     {
